@@ -313,7 +313,22 @@ Fixpoint last_tok (evs : list ev) (job : option tokens) : option tokens :=
 (** ** Histories *)
 Inductive op :=
 | OAppend (k : nat) (vs : list wver)
-| ORun (full : bool) (b : nat) (fail : option nat) (core : Z).
+| ORun (full : bool) (b : nat) (fail : option nat) (core : Z)
+(* a full sync DURING which, right after its [k]-th successful sink call, another writer appends [vs] to dataset
+   [ds] (not the main dataset) *)
+| ORunMid (b : nat) (fail : option nat) (core : Z) (k : nat) (ds : nat) (vs : list wver).
+
+(** [e] placed right after the [k]-th call that invoked the sink; false when there is no such call *)
+Fixpoint insert_mid (evs : list ev) (k : nat) (e : ev) : list ev * bool :=
+  match evs with
+  | [] => ([], false)
+  | EvCall (x :: es) t :: r =>
+    match k with
+    | O => (EvCall (x :: es) t :: e :: r, true)
+    | S k' => let '(r', i) := insert_mid r k' e in (EvCall (x :: es) t :: r', i)
+    end
+  | a :: r => let '(r', i) := insert_mid r k e in (a :: r', i)
+  end.
 
 Record state := mkSt { s_hub : hub; s_job : option tokens }.
 Definition init_state (n : nat) : state := mkSt (mkHub (repeat [] n) 0) None.
@@ -329,6 +344,12 @@ Definition step (v : variant) (c : cfg) (s : state) (o : op) : state * list ev *
   | ORun full b fail core =>
     let '(evs, ok) := run_events v c (s_hub s) (s_job s) full b fail core in
     (mkSt (s_hub s) (last_tok evs (s_job s)), evs, ok)
+  | ORunMid b fail core k ds vs =>
+    (* the main dataset is not written, so the pages are those of the hub the run started on; the watermarks were
+       taken by StartFullSync *)
+    let '(evs, ok) := run_events v c (s_hub s) (s_job s) true b fail core in
+    let '(evs', ins) := insert_mid evs k (EvAppend ds vs) in
+    (mkSt (if ins then append_hub (s_hub s) ds vs else s_hub s) (last_tok evs' (s_job s)), evs', ok)
   end.
 
 Fixpoint exec (v : variant) (c : cfg) (s : state) (ops : list op) : state * list ev :=
@@ -431,15 +452,16 @@ Fixpoint no_append (evs : list ev) : Prop :=
 
 (** The change at position [p] of [dp]'s dataset has been handled: at some moment of the history at which the
     change existed ([tr1] = the history up to that moment, [h1] the hub, [tk1] the persisted job token = the
-    "previous run"), the job handed to the sink, before any further write ([tr2]),
-    - every main entity the declared joins require for it (graph as it stands at that moment; first outgoing hop
-      also as the dependency dataset stood at the persisted position, which is not past [p]), or
-    - every live main entity (a full sync). *)
+    "previous run"), the job handed to the sink ([tr2])
+    - before any further write, every main entity the declared joins require for it (graph as it stands at that
+      moment; first outgoing hop also as the dependency dataset stood at the persisted position, which is not
+      past [p]), or
+    - every main entity that was live at that moment (a full sync). *)
 Definition covered (c : cfg) (n : nat) (tr : list ev) (dp : dep) (p : Z) : Prop :=
   exists tr1 tr2 tr3 h1 job1 x,
-    tr = tr1 ++ tr2 ++ tr3 /\ replay tr1 (s_hub (init_state n)) None = (h1, job1) /\ no_append tr2 /\
+    tr = tr1 ++ tr2 ++ tr3 /\ replay tr1 (s_hub (init_state n)) None = (h1, job1) /\
     nthz (feed_of h1 (d_ds dp)) p = Some x /\
-    ((exists tk1, job1 = Some tk1 /\ (dtok tk1 (d_ds dp) <= p)%Z /\
+    ((exists tk1, no_append tr2 /\ job1 = Some tk1 /\ (dtok tk1 (d_ds dp) <= p)%Z /\
                   forall m, required c h1 dp (dtok tk1 (d_ds dp)) (v_id x) m -> In m (ents_of tr2))
      \/ (forall m, main_live h1 (c_main c) m = true -> In m (ents_of tr2))).
 
@@ -448,5 +470,10 @@ Definition caught_up (c : cfg) (s : state) : Prop :=
   exists tk, s_job s = Some tk /\
              forall dp, In dp (c_deps c) -> dtok tk (d_ds dp) = lenz (feed_of (s_hub s) (d_ds dp)).
 
-Definition batch_ok (o : op) : Prop := match o with ORun _ b _ _ => (1 <= b)%nat | _ => True end.
+Definition batch_ok (c : cfg) (o : op) : Prop :=
+  match o with
+  | ORun _ b _ _ => (1 <= b)%nat
+  | ORunMid b _ _ _ ds _ => (1 <= b)%nat /\ ds <> c_main c
+  | _ => True
+  end.
 Definition sound (v : variant) : Prop := f_shared v = SharedSnapshot /\ f_prev v = PrevFeed /\ f_wm v = WmOwn.
